@@ -45,7 +45,10 @@ for d in sorted(glob.glob(os.path.join(VERIF, 'seeded', 'C*-*'))):
     json.dump(m, open(mp, 'w'), indent=1)
     ded_any = any(c.get('deductive_obligations_failed') for c in m.get('checks', []) if c['check'] == m['property'])
     own = [c for c in m.get('checks', []) if c['check'] == m['property']]
-    rows.append((key, m.get('needs_to_manifest', '')[:160], 'yes' if own and own[0]['exit'] == 1 else 'NO',
+    first = [c for c in (m.get('checks_first_run') or m.get('checks', [])) if c['check'] == m['property']]
+    missed_first = bool(first and first[0]['exit'] != 1) or '(first missed' in m.get('needs_to_manifest', '')
+    now = 'yes' if own and own[0]['exit'] == 1 else 'NO'
+    rows.append((key, m.get('needs_to_manifest', '')[:160], ('missed at first, now ' + now) if missed_first else now,
                  'deductive + bounded' if ded_any and any(c.get('bounded_units_failed') for c in own) else ('deductive' if ded_any else 'bounded only'),
                  '; '.join(f"{c['check']}={'flagged' if c['exit'] == 1 else 'quiet'}" for c in m.get('checks', []) if c['check'] != m['property'])))
 print('| change | what it needs to show | flagged by its check | by | other checks run |')
